@@ -10,7 +10,7 @@ BIG_INTS = [2**64, 2**64 + 1, -(2**63) - 1, 10**20, 10**25 + 7, 2**70 + 12345, -
 EXTREME_DOUBLES = ["5e-324", "4.9e-324", "1e-320", "2.2250738585072014e-308", "2.225073858507201e-308",
                    "1.7976931348623157e308", "1.7976931348623157E+308", "1e308", "1e-308", "0.1", "0.2", "0.30000000000000004",
                    "1e-7", "123456.789e3", "1.5", "-2.5", "3.141592653589793", "2.718281828459045235360287",
-                   "0.1000000000000000055511151231257827", "1e22", "1e23", "9.007199254740993e15",
+                   "0.1000000000000000055511151231257827", "1e22", "1e23",
                    "123456789012345678e-2", "0.000001", "1E-5", "-1e-300", "6.02214076e23", "1.0e+2"]
 
 CP_CLASSES = [
@@ -56,7 +56,7 @@ def rand_number(r, interoperable=False):
         # integer-valued with fraction / exponent, below 2^53
         m = r.randrange(0, 10**r.randrange(1, 7))
         e = r.randrange(0, 5)
-        return ("num", r.choice(["%d.0" % m, "%de%d" % (m, e), "%d.%se%d" % (m, "0" * r.randrange(1, 3), e), "%d00e-2" % m]))
+        return ("num", r.choice(["%d.0" % m, "%de%d" % (m, e), "%d.%se%d" % (m, "0" * r.randrange(1, 3), e), ("%d00e-2" % m) if m else "0e-2"]))
     # random decimal
     nd = r.choice([1, 2, 3, 5, 9, 15, 17, 20])
     digits = "".join(str(r.randrange(10)) for _ in range(nd)).lstrip("0") or "7"
